@@ -493,4 +493,45 @@ example : (explode cfgBoth (toks docA)).segments.map (·.path) = ["R/A".toList, 
 example : ((explode { cfgBoth with items := [['R']] } (toks docA)).segments.map (·.fields)) =
     [some [], some [(['A'], ['x'])]] := by decide
 
+/-! ### no depth bound -/
+
+/-- a chain of `n + 1` nested elements named `nm` (the innermost holds the text `t`) -/
+def chain (nm t : Str) : Nat → Node
+  | 0 => .elem nm [] [.text t]
+  | n + 1 => .elem nm [] [chain nm t n]
+
+theorem countElems_chain (nm t : Str) : ∀ n, countElems (chain nm t n) = n + 1
+  | 0 => by simp [chain, countElems, countElemsL]
+  | n + 1 => by simp [chain, countElems, countElemsL, countElems_chain nm t n]
+
+/-- **Nesting depth is unbounded**: a document nested `n + 1` levels deep yields `n + 1` segment entries, for EVERY `n`
+(instance of `segments_postorder`; there is no element stack limit in `ExplodeXML`). -/
+theorem _root_.KafVerif.C45.deep_chain_all_emitted (cfg : Cfg) (nm t : Str) (n : Nat) :
+    (explode cfg (toks (chain nm t n))).segments.length = n + 1 := by
+  rw [(KafVerif.C45.segments_postorder cfg (chain nm t n)).2, countElems_chain]
+
+/-- NOT the code: `ExplodeXML` with an element-stack bound `maxDepth` — a start tag arriving on a full stack is consumed
+together with its whole subtree (`decoder.Skip()`); `skip` counts the open skipped elements. -/
+def stepBounded (maxDepth : Nat) (cfg : Cfg) (st : Nat × List Frame × Res) : Tok → Nat × List Frame × Res
+  | .start name attrs =>
+    if st.1 > 0 then (st.1 + 1, st.2)
+    else if st.2.1.length ≥ maxDepth then (1, st.2)
+    else (0, step cfg st.2 (.start name attrs))
+  | .text s => if st.1 > 0 then st else (0, step cfg st.2 (.text s))
+  | .stop => if st.1 > 0 then (st.1 - 1, st.2) else (0, step cfg st.2 .stop)
+
+def explodeBounded (maxDepth : Nat) (cfg : Cfg) (ts : List Tok) : Res :=
+  (ts.foldl (stepBounded maxDepth cfg) (0, [], Res.empty)).2.2
+
+def cfgNone : Cfg := { items := [], partners := [], statuses := [], dates := [] }
+
+/-- **Witness: a stack bound drops elements.**  With bound 2 a chain of 4 elements yields 2 entries (the code: 4). -/
+theorem _root_.KafVerif.C45.depth_bound_violates :
+    (explodeBounded 2 cfgNone (toks (chain ['A'] ['x'] 3))).segments.length = 2 ∧
+    (explode cfgNone (toks (chain ['A'] ['x'] 3))).segments.length = 4 ∧
+    countElems (chain ['A'] ['x'] 3) = 4 := by decide
+
+example : (explode cfgNone (toks (chain ['A'] ['x'] 40))).segments.length = 41 :=
+  KafVerif.C45.deep_chain_all_emitted cfgNone ['A'] ['x'] 40
+
 end KafVerif.Idoc
